@@ -153,7 +153,8 @@ func c06Setup(src string) {
 			continue
 		}
 		y := verifInt("y" + itoaV(i))
-		verifAssume(0 <= y && y < 1000000)
+		verifAssume(0 <= y)
+		verifAssume(y < 1000000)
 		c06Y[i] = y
 		for j := i - 1; j >= 0; j-- {
 			if c06Indent[j] >= 0 && c06Indent[j] < c06Indent[i] {
@@ -215,6 +216,8 @@ var c06Templates = []string{
 	"package main\n\ntype U =\n  | A of int\n  | B\n  | C of string\n\nlet g (u:U) =\n  match u with\n  | A i ->@4@i + 1\n  | B ->@4@0\n  | C s ->@4@2\n\nlet h (s:string) =\n  match s with\n  | \"x\" ->@4@1\n  | _ ->@4@0\n",
 	// records, inner function, match arm holding an if
 	"package main\n\ntype R = {X: int; Y: string}\n\ntype V =\n  | P of R\n  | Q\n\nlet mk (a:int) =\n  let inner (b:int) =@4@a + b\n  let r = {X=inner 1; Y=\"s\"}\n  r\n\nlet k (v:V) =\n  match v with\n  | P r ->\n    if r.X > 0 then\n      r.X\n    else\n      0\n  | Q ->@4@1\n",
+	// inner function, pipeline continuation lines, lambda; nested match with multi-statement arms; record field on a second line
+	c06Prelude + "type U =\n  | A of int\n  | B\n\ntype R = {X: int;\n          Y: string}\n\nlet f (xs:[]int) =\n  let g (x:int) =@4@x + 1\n  xs\n  |> slice.Map g\n  |> slice.Filter (fun x -> x > 2)\n\nlet h (u:U) (v:U) =\n  match u with\n  | A i ->\n    let k =@6@i + 1\n    match v with\n    | A j ->@6@k + j\n    | _ ->@6@k\n  | _ ->@4@0\n\nlet mk (a:int) =\n  let r = {X=a; Y=\"s\"}\n  r.X\n",
 	// if / elif / else as value, nested blocks
 	"package main\n\nlet sel (a:int) =\n  if a > 2 then\n    let b =@6@a * 2\n    b\n  elif a > 1 then\n    2\n  else\n    let c = 3\n    c + a\n",
 }
@@ -222,10 +225,11 @@ var c06Templates = []string{
 func c06RunTemplate(t int) {
 	src := c06Expand(c06Templates[t], "")
 	src = c06Decorate(src, verifChoice("deco", 6))
+	// every layout of the property's grammar over the same text (set up first:
+	// the assumptions are cheap to re-execute, the compiles are not)
+	c06Setup(src)
 	want, p, msg := compileSrc(src)
 	verifAssert(!p, "the canonical layout is accepted: "+msg)
-	// every layout of the property's grammar over the same text
-	c06Setup(src)
 	var got string
 	var p2 bool
 	var msg2 string
@@ -244,7 +248,8 @@ func c06RunTemplate(t int) {
 func Harness_C06B_Let()    { c06RunTemplate(0) }
 func Harness_C06B_Match()  { c06RunTemplate(1) }
 func Harness_C06B_Record() { c06RunTemplate(2) }
-func Harness_C06B_If()     { c06RunTemplate(3) }
+func Harness_C06B_Nested() { c06RunTemplate(3) }
+func Harness_C06B_If()     { c06RunTemplate(4) }
 
 // break-site and decoration choices alone (concrete columns): same output as
 // the most compact layout
